@@ -142,6 +142,8 @@ func main() {
 		writeKeys(*repo, filepath.Join(*genDir, "GeneratedKeys.v"))
 		writeDenom(*repo, filepath.Join(*genDir, "GeneratedDenom.v"))
 		writeKeeper(*repo, "streamonstore", "", filepath.Join(*genDir, "GeneratedStreamKeeperOnStore.v"))
+		writeKeeper(*repo, "wrkchainonstore", "", filepath.Join(*genDir, "GeneratedWrkchainKeeperOnStore.v"))
+		writeKeeper(*repo, "beacononstore", "", filepath.Join(*genDir, "GeneratedBeaconKeeperOnStore.v"))
 		for _, sp := range storeSpecs {
 			writeStore(*repo, sp, filepath.Join(*genDir, "Generated"+strings.Title(sp.module)+"Store.v"))
 		}
